@@ -34,6 +34,9 @@ Proof.
   destruct (p s); [discriminate | exact Hq | congruence].
 Qed.
 
+Lemma NF_restore {A} b (p : parser A) : NFat b p -> NFat b (p_restore p).
+Proof. intros Hp s Hs Hr H. apply p_restore_fuel in H. exact (Hp s Hs Hr H). Qed.
+
 Lemma NF_opt {A} b (p : parser A) : NFat b p -> NFat b (p_opt p).
 Proof. intros Hp s Hs Hr. unfold p_opt. specialize (Hp s Hs Hr). destruct (p s); congruence. Qed.
 
@@ -157,7 +160,7 @@ Ltac nf_step :=
   | match goal with H : _ -> _ -> NFat ?b ?p |- NFat ?b ?p => solve [auto 3] end
   | apply NF_tag | apply NF_comments | apply NF_peek | apply NF_ignore0 | apply NF_ignore1 | apply NF_ret
   | apply NF_ident | apply NF_intlit
-  | apply NF_map | apply NF_alt | apply NF_opt | apply NF_info | apply NF_expect | apply NF_ref
+  | apply NF_map | apply NF_restore | apply NF_alt | apply NF_opt | apply NF_info | apply NF_expect | apply NF_ref
   | apply NF_confusable
   | apply NF_pair_tag; [intros ?]
   | apply NF_pair; [ | solve [fwd_solve Hs0] | ]
